@@ -174,7 +174,10 @@ def relevant(pid, case):
 def diagnose(chk, case):
     if not case.get("coq") or "run_case " not in case["coq"]:
         return None
-    expr = case["coq"].replace("(run_case ", "(run_case_detail ", 1)
+    coq = case["coq"]
+    if coq.startswith("(with_chain ") and " (c_chain " in coq:
+        coq = coq[len("(with_chain "):coq.rindex(" (c_chain ")]
+    expr = coq.replace("(run_case ", "(run_case_detail ", 1)
     val = chk.coq_show(HEADER, [expr])[0]
     import re
     groups = re.findall(r"\[([^\[\]]*)\]", val)
